@@ -3,8 +3,9 @@
 from __future__ import annotations
 
 import itertools
+from types import SimpleNamespace
 
-from vf.combi import digits
+from vf.combi import NODE_LABELS, digits, fresh, unlabel
 from vf.guard import call as gcall, too_many_hangs
 from vf.core import Job, new_result, viol
 
@@ -149,17 +150,34 @@ def check_condense(res, n, adj, reach, declared):
     return errs
 
 
-def run_graph(r, n, adj, declared, strict=True, edges_variants=True):
+def run_graph(r, n, adj, declared, strict=True, edges_variants=True, labelled=False):
     from solvor.scc import condense, strongly_connected_components, strongly_connected_components_edges, topological_sort, topological_sort_edges
 
     reach = closure(n, adj)
     nb = lambda v: adj[v]  # noqa: E731
     wit = {"n": n, "adj": [list(a) for a in adj], "nodes": list(declared)}
+    if labelled:
+        # the same graph over labels of assorted hashable types, a fresh (equal, not identical) object at every use;
+        # answers are translated back to node numbers before they are judged
+        lab = lambda x: fresh(NODE_LABELS[x])  # noqa: E731
+        inv = {NODE_LABELS[x]: x for x in range(n)}
+        nbl = lambda v: [lab(w) for w in adj[inv[v]]]  # noqa: E731
+        wit["labelled"] = True
+        edges_variants = False
+
+        def translated(fn):
+            def call():
+                res = fn([lab(x) for x in declared], nbl)
+                return SimpleNamespace(status=res.status, objective=res.objective, solution=unlabel(res.solution, inv))
+
+            return call
     big_cycle = any(len(c) > 1 for c in classes(n, reach))
     nontrivial = big_cycle or (len(classes(n, reach)) > 1 and any(adj[u] and any(v != u for v in adj[u]) for u in range(n)))
     calls = [("strongly_connected_components", lambda: strongly_connected_components(list(declared), nb)), ("topological_sort", lambda: topological_sort(list(declared), nb))]
     if strict:
         calls.append(("condense", lambda: condense(list(declared), nb)))
+    if labelled:
+        calls = [("strongly_connected_components", translated(strongly_connected_components)), ("topological_sort", translated(topological_sort))] + ([("condense", translated(condense))] if strict else [])
     if edges_variants and strict and list(declared) == list(range(n)):
         el = [(u, v) for u in range(n) for v in adj[u]]
         calls.append(("strongly_connected_components_edges", lambda: strongly_connected_components_edges(n, el, backend="python")))
@@ -209,6 +227,8 @@ def _all_chunk(params, lo, hi):
         if desc:
             adj = [list(reversed(a)) for a in adj]
         run_graph(r, n, adj, perms[pi], True, edges_variants=(pi == 0))
+        if pi == len(perms) - 1:
+            run_graph(r, n, adj, perms[pi], True, labelled=True)
         if len(r["violations"]) >= 40 or too_many_hangs():
             r["capped"] = True
             break
@@ -246,6 +266,8 @@ def _outside_chunk(params, lo, hi):
             if code >> b & 1:
                 adj[u].append(v)
         run_graph(r, 4, adj, decl, strict=False)
+        if idx % len(DECL) == 3:
+            run_graph(r, 4, adj, decl, strict=False, labelled=True)
         if len(r["violations"]) >= 40 or too_many_hangs():
             r["capped"] = True
             break
@@ -279,7 +301,7 @@ def replay(v):
     w = v["witness"]
     r = new_result()
     strict = sorted(w["nodes"]) == list(range(w["n"]))
-    run_graph(r, w["n"], w["adj"], tuple(w["nodes"]), strict)
+    run_graph(r, w["n"], w["adj"], tuple(w["nodes"]), strict, labelled=bool(w.get("labelled")))
     for x in r["violations"]:
         if x["function"] == v["function"]:
             return x
